@@ -335,7 +335,7 @@ def declares_order(ctx):
     ctx.require(found >= 1, "write_variable_declares: emitting loop not found")
 
 
-@rule("C05.attribute-pieces", min_instances=5, props=["C07"])
+@rule("C05.attribute-pieces", min_instances=5, props=["C07", "C11", "C20"])
 def attribute_pieces(ctx):
     """an attribute value that mixes text and ${} becomes the `+`-concatenation, in order, of every non-empty piece: expressions parenthesised and unchanged, every other piece (blank ones included) as its repr"""
     db = ctx.db
